@@ -56,7 +56,19 @@ type Ctx struct {
 	known     map[string]int // known finding id -> hits
 	knownDesc map[string]string
 	notes     []string
+	sigset    map[string]bool
 }
+
+func (c *Ctx) sigNote(s string) {
+	c.mu.Lock()
+	if c.sigset == nil {
+		c.sigset = map[string]bool{}
+	}
+	c.sigset[s] = true
+	c.mu.Unlock()
+}
+
+func timeAfter(sec int) <-chan time.Time { return time.After(time.Duration(sec) * time.Second) }
 
 func NewCtx(prop, tier string, seed uint64) *Ctx {
 	sc := 1
@@ -198,6 +210,7 @@ func (c *Ctx) Finish(proof *proofInfo, rule string, trusted []string, assumption
 		"oracle_H3_failures":  oracleH3Fail,
 		"known_findings_hit":  c.known,
 		"notes":               c.notes,
+		"outcome_signatures":  len(c.sigset),
 	}
 	if proof != nil {
 		cov["obligations"] = proof.Obligations
